@@ -89,8 +89,12 @@ IsLeaf(doc, k) == doc.kind[k] \in {"br", "text"}
 \* containers have no annotation to carry and are not part of the snapshot).
 Presentable(doc, k, R, t) == ActivePath(doc, k, t) /\ ~HiddenPath(doc, k, t) /\ PathCompatible(doc, k, R)
 
+\* (an element without children that is associated with no region at all is in no region's tree - region selection keeps an
+\* unassociated element only for the sake of its descendants: an EMPTY base counts only where it is associated with R)
+HasKids(doc, k) == \E c \in 1..doc.n : doc.parent[c] = k
 BaseKept(doc, r, R, t) ==
-  \E c \in 1..doc.n : doc.parent[c] = r /\ doc.kind[c] \in {"rb", "rbc"} /\ Presentable(doc, c, R, t)
+  \E c \in 1..doc.n : /\ doc.parent[c] = r /\ doc.kind[c] \in {"rb", "rbc"} /\ Presentable(doc, c, R, t)
+                       /\ (HasKids(doc, c) \/ Assoc(doc, c) = R)
 
 RECURSIVE RubyOk(_, _, _, _)
 RubyOk(doc, k, R, t) ==
@@ -130,9 +134,11 @@ Containers(doc, R, t) ==
       \* ruby containers whose annotation shows nothing: only the base text is presented
       bare == {r \in up : doc.kind[r] = "ruby" /\
                  ~\E k \in ls : \E a \in Ancestors(doc, k) : doc.parent[a] = r /\ doc.kind[a] \in {"rt", "rtc"}}
-      keptB == {k \in 1..doc.n : doc.kind[k] \in {"rb", "rbc"} /\ doc.parent[k] \in up /\ Presentable(doc, k, R, t)}
+      keptB == {k \in 1..doc.n : doc.kind[k] \in {"rb", "rbc"} /\ doc.parent[k] \in up /\ Presentable(doc, k, R, t)
+                                   /\ (HasKids(doc, k) \/ Assoc(doc, k) = R)}
       \* a base inside a kept base container comes with it, also when it shows nothing itself
-      keptB2 == {k \in 1..doc.n : doc.kind[k] = "rb" /\ doc.parent[k] \in keptB /\ Presentable(doc, k, R, t)}
+      keptB2 == {k \in 1..doc.n : doc.kind[k] = "rb" /\ doc.parent[k] \in keptB /\ Presentable(doc, k, R, t)
+                                    /\ (HasKids(doc, k) \/ Assoc(doc, k) = R)}
       all == up \cup keptB \cup keptB2
   IN  all \ (bare \cup {k \in all : doc.kind[k] \in {"rb", "rbc"} /\ doc.parent[k] \in bare}
                    \cup {k \in all : doc.kind[k] = "rb" /\ doc.parent[k] # 0 /\ doc.parent[doc.parent[k]] \in bare})
